@@ -213,6 +213,8 @@ type snapStore struct {
 	mu     *sync.Mutex
 	count  *int
 	active *bool
+	// onCommit is called after the k-th commit, before the snapshot is taken
+	onCommit func(k int)
 }
 
 func (s snapStore) Update(f func(storage.Tx) error) error {
@@ -222,6 +224,9 @@ func (s snapStore) Update(f func(storage.Tx) error) error {
 		*s.count++
 		k := *s.count
 		s.mu.Unlock()
+		if s.onCommit != nil {
+			s.onCommit(k)
+		}
 		(*s.db).View(func(tx *bolt.Tx) error {
 			return tx.CopyFile(filepath.Join(s.dir, fmt.Sprintf("snap%03d.db", k)), 0o600)
 		})
@@ -282,6 +287,9 @@ type runResult struct {
 	restored  map[string]map[string]storedState
 	commits   int
 	anonTopic string
+	// collected[k-1]: how many events the named / the anonymous topic had accepted for its
+	// handlers when the k-th commit was made
+	collected [][2]int64
 }
 
 // runOnce opens service + TaskMaster + task on the Bolt file in dir, optionally checks the state
@@ -292,14 +300,25 @@ func runOnce(c Case, dir string, pts []kit.Pt, from int, snapshots bool, cc *kit
 	var mu sync.Mutex
 	active := false
 	var db *bolt.DB
+	var envp *kit.Env
 	env, err := kit.NewEnv(kit.EnvOpts{Alerts: true, PersistTopics: true, Dir: dir, TMName: "main",
 		StoreWrap: func(ns string, s storage.Interface) storage.Interface {
 			if ns != topicNS || !snapshots {
 				return s
 			}
-			return snapStore{Interface: s, db: &db, dir: dir, mu: &mu, count: &res.commits, active: &active}
+			return snapStore{Interface: s, db: &db, dir: dir, mu: &mu, count: &res.commits, active: &active, onCommit: func(k int) {
+				var c [2]int64
+				if st, ok, _ := envp.Alert.TopicState("T"); ok {
+					c[0] = st.Collected
+				}
+				if st, ok, _ := envp.Alert.TopicState("main:task:alert2"); ok {
+					c[1] = st.Collected
+				}
+				res.collected = append(res.collected, c)
+			}}
 		},
 		Prepare: func(e *kit.Env) {
+			envp = e
 			e.Alert.RegisterAnonHandler("T", h)
 		}})
 	if err != nil {
@@ -408,6 +427,20 @@ func run(c Case, cc *kit.Case) {
 	if r1.commits != len(full)*perEvent {
 		cc.Fail("persist/commit-count", "%d events were collected on %d topic(s), the topic store committed %d updates (one per event and topic is expected)\nscript: %s", len(full), perEvent, r1.commits, script)
 		return
+	}
+	// tell, then commit: when an event's state is committed for a topic, the topic has already
+	// accepted the event for its handlers - a crash right after the commit then costs a repeat at
+	// worst; the other order leaves a level on record that no handler was ever told
+	for k := 1; k <= r1.commits && k <= len(r1.collected); k++ {
+		e := (k - 1) / perEvent
+		which, name := 0, "T"
+		if c.Anon && k%2 == 1 {
+			which, name = 1, "the anonymous topic"
+		}
+		if r1.collected[k-1][which] < int64(e+1) {
+			cc.Fail("persist/committed-before-handlers-told", "commit %d records event %d (%s) for %s, but the topic had accepted only %d events for its handlers at that moment: a crash right after this commit is a silent miss\nscript: %s\nevents: %s", k, e, fmtEvents(full[e:e+1]), name, r1.collected[k-1][which], script, fmtEvents(full))
+			return
+		}
 	}
 	// the final state of the uninterrupted run, from the model
 	finalModel := map[string]*idState{}
@@ -650,6 +683,7 @@ var assumptions = []string{
 	"events are observed by a handler on the named topic T; with an anonymous topic as well, every event is committed to the anonymous topic first and to the named topic second: at a crash point between the two the last recorded event is the anonymous topic's",
 	"at a crash point between the two commits of one event the ID may resume at either recorded level (the anonymous topic's or the named topic's); a repeated event is allowed, a final state different from the uninterrupted run or a silent miss is not",
 	"known finding restart/between-anon-and-named-commit/{first,change-last,recovery-stale}: in-between crash points of an event that raises an ID from OK, is a change between non-OK levels after which the ID gets no further point, or is a recovery after which the ID, resumed at the named topic's stale level, does not end where the uninterrupted run ends (no further point, or points inside a reset band), are excluded by construction (counted) and covered by the replayed witnesses; in-between crash points of the other level changes, of the other recoveries and of repeated events are checked",
+	"tell, then commit: at every commit of an event's state the topic must already have accepted that event for its handlers (its collected counter, read inside the commit wrapper) - what 'at worst a repeat, never a silent miss' rests on; whether a handler's own goroutine had run before a crash cannot be observed in-process",
 	"durations after a restart are not compared (the property does not state them)",
 	"noRecoveries: the withheld OK event is never recorded, so the final stored state is not compared with the uninterrupted run",
 	"level lambdas are thresholds over an integer field that every point carries; stream tasks",
